@@ -186,6 +186,7 @@ def main(argv=None):
             "warnings_observed": {k[8:]: v for k, v in sorted(counters.items()) if k.startswith("warning:")},
             "repo_functions_executed": len(coverage),
             "repo_functions_top (counts capped at 200 per shard)": dict(sorted(coverage.items(), key=lambda kv: -kv[1])[:40]),
+            "repo_functions_all": sorted(coverage),
             "anchored_functions_executed": {k: v for k, v in sorted(coverage.items())
                                             if any(k.split(":")[0].endswith(a_) for a_ in getattr(mod, "ANCHORS", []))},
             "known_findings_observed": known_hit,
